@@ -18,6 +18,7 @@
    VRPs of a foreign cache (identity 9) may be installed beforehand. *)
 From Coq Require Import List NArith Bool ZArith.
 From RB Require Import Base.Val Model.Rpki.
+From RB Require Model.Stream Model.Rtr.
 Import ListNotations.
 Open Scope N_scope.
 
@@ -25,7 +26,7 @@ Record fixes := { fx_eod : bool; fx_skip : bool }.
 Definition fixed : fixes := {| fx_eod := true; fx_skip := true |}.
 Definition prefix_code : fixes := {| fx_eod := false; fx_skip := false |}.
 
-(* ---- PDUs (packet/src/rpki.rs Message) *)
+(* ---- PDUs (packet/src/rpki.rs Message) as serve_inner sees them *)
 Inductive msg :=
 | SerialNotify (sid serial : N)
 | SerialQuery (sid serial : N)
@@ -36,84 +37,26 @@ Inductive msg :=
 | CacheReset
 | ErrorReport (code : N).
 
-Definition known_type (ty : N) : bool :=
-  existsb (N.eqb ty) [0; 1; 2; 3; 4; 6; 7; 8; 10].
-
-(* Message::from_bytes: None = Err(_) (too short, length > buffer, unknown type) *)
-Definition from_bytes (buf : list N) : option (msg * N) :=
-  match buf with
-  | ver :: ty :: s1 :: s2 :: l1 :: l2 :: l3 :: l4 :: body =>
-      let sid := be32 [s1; s2] in
-      let len := be32 [l1; l2; l3; l4] in
-      if N.of_nat (length buf) <? len then None
-      else
-        if ty =? 0 then
-          match body with
-          | a :: b :: c :: d :: _ => Some (SerialNotify sid (be32 [a; b; c; d]), len)
-          | _ => None
-          end
-        else if ty =? 1 then
-          match body with
-          | a :: b :: c :: d :: _ => Some (SerialQuery sid (be32 [a; b; c; d]), len)
-          | _ => None
-          end
-        else if ty =? 2 then Some (ResetQuery, len)
-        else if ty =? 3 then Some (CacheResponse sid, len)
-        else if ty =? 4 then
-          match body with
-          | fl :: pl :: ml :: _ :: rest =>
-              if (length rest <? 8)%nat then None
-              else Some (IpPrefix {| n_fam := F4; n_addr := firstn 4 rest; n_mask := pl |} fl ml
-                                  (be32 (firstn 4 (skipn 4 rest))), len)
-          | _ => None
-          end
-        else if ty =? 6 then
-          match body with
-          | fl :: pl :: ml :: _ :: rest =>
-              if (length rest <? 20)%nat then None
-              else Some (IpPrefix {| n_fam := F6; n_addr := firstn 16 rest; n_mask := pl |} fl ml
-                                  (be32 (firstn 4 (skipn 16 rest))), len)
-          | _ => None
-          end
-        else if ty =? 7 then
-          match body with
-          | a :: b :: c :: d :: rest =>
-              let serial := be32 [a; b; c; d] in
-              if 1 <=? ver then
-                if (length rest <? 12)%nat then None
-                else Some (EndOfData sid serial (be32 (firstn 4 rest)) (be32 (firstn 4 (skipn 4 rest)))
-                                     (be32 (firstn 4 (skipn 8 rest))), len)
-              else Some (EndOfData sid serial 0 0 0, len)
-          | _ => None
-          end
-        else if ty =? 8 then Some (CacheReset, len)
-        else if ty =? 10 then Some (ErrorReport sid, len)
-        else None
-  | _ => None
+(* The codec is the C03 model of packet/src/rpki.rs (Model/Rtr.v): [Rtr.rtr_decode] is
+   <RtrCodec as Decoder>::decode as it is now (frame by the length field; a length below
+   8 or a PDU shorter than its type needs is an error that ends the session; complete
+   PDUs of unused types are dropped), [Rtr.rtr_decode_v0] the decoder before the
+   repairs.  Framed's read loop is Model/Stream.v [drain]. *)
+Definition of_rtr (m : Rtr.rtr_msg) : msg :=
+  match m with
+  | Rtr.RSerialNotify s n => SerialNotify s n
+  | Rtr.RSerialQuery s n => SerialQuery s n
+  | Rtr.RResetQuery => ResetQuery
+  | Rtr.RCacheResponse s => CacheResponse s
+  | Rtr.RPrefix ty fl pl ml addr asn =>
+      IpPrefix {| n_fam := if ty =? 4 then F4 else F6; n_addr := addr; n_mask := pl |} fl ml asn
+  | Rtr.REndOfData s n a b c => EndOfData s n a b c
+  | Rtr.RCacheReset => CacheReset
+  | Rtr.RErrorReport c => ErrorReport c
   end.
 
-(* the PDU a skipping decoder may drop: complete, of a type from_bytes does not know *)
-Definition skippable (buf : list N) : option N :=
-  match buf with
-  | _ :: ty :: _ :: _ :: l1 :: l2 :: l3 :: l4 :: _ =>
-      let len := be32 [l1; l2; l3; l4] in
-      if negb (known_type ty) && (8 <=? len) && (len <=? N.of_nat (length buf)) then Some len else None
-  | _ => None
-  end.
-
-(* RtrCodec::decode: (Some message | None = Ok(None), "need more bytes"; the buffer afterwards).
-   Every skipped PDU has at least 8 bytes, so [length buf] fuel is always enough. *)
-Fixpoint decode (fx : fixes) (fuel : nat) (buf : list N) : option msg * list N :=
-  match from_bytes buf with
-  | Some (m, len) => (Some m, skipn (N.to_nat len) buf)
-  | None =>
-      if fx_skip fx then
-        match skippable buf, fuel with
-        | Some len, S fuel' => decode fx fuel' (skipn (N.to_nat len) buf)
-        | _, _ => (None, buf)
-        end
-      else (None, buf)
-  end.
+Definition codec (fx : fixes) : list N -> Stream.dres Rtr.rtr_msg unit :=
+  if fx_skip fx then Rtr.rtr_decode else Rtr.rtr_decode_v0.
 
 (* Message::to_bytes for the two queries the client sends (codec version 1) *)
 Definition be16_bytes (a : N) : list N := [a / 256 mod 256; a mod 256].
@@ -174,19 +117,20 @@ Definition with_buf (st : cstate) (b : list N) : cstate :=
      c_eod_count := c_eod_count st; c_up := c_up st; c_buf := b;
      c_permit := c_permit st; c_done := c_done st; c_open := c_open st |}.
 
-(* Framed::next in a loop: decode until the codec wants more bytes *)
-Fixpoint drain (fx : fixes) (fuel : nat) (src : N) (st : cstate) (t : rtab) (sent : list N)
+(* serve_inner over what one Framed drain delivered: every message goes through the
+   `match msg`, in order; a decoder error is `Err(_) => break` (the bool says the loop
+   was left).  Stream.drain stops at the first error, so no message follows one. *)
+Fixpoint run_msgs (fx : fixes) (c : N) (ms : list msg) (st : cstate) (t : rtab) (sent : list N)
   : cstate * rtab * list N :=
-  match fuel with
-  | O => (st, t, sent)
-  | S fuel' =>
-      match decode fx (length (c_buf st)) (c_buf st) with
-      | (None, rest) => (with_buf st rest, t, sent)
-      | (Some m, rest) =>
-          let '(st2, t2, out) := on_msg fx src (with_buf st rest) t m in
-          drain fx fuel' src st2 t2 (sent ++ out)
-      end
+  match ms with
+  | [] => (st, t, sent)
+  | m :: rest => let '(st', t', out) := on_msg fx c st t m in run_msgs fx c rest st' t' (sent ++ out)
   end.
+
+Definition apply_evs (fx : fixes) (src : N) (evs : list (Stream.ev Rtr.rtr_msg unit))
+           (st : cstate) (t : rtab) (sent : list N) : cstate * rtab * list N * bool :=
+  (run_msgs fx src (map of_rtr (Stream.msgs_of evs)) st t sent,
+   match Stream.err_of evs with Some _ => true | None => false end).
 
 Definition with_permit (st : cstate) (p : bool) : cstate :=
   {| c_v := c_v st; c_eod := c_eod st; c_sid := c_sid st; c_serial := c_serial st;
@@ -223,10 +167,18 @@ Definition client_event (fx : fixes) (src : N) (st : cstate) (t : rtab) (e : eve
     match e with
     | EFeed _ bytes =>
         if c_open st then
-          let st1 := with_buf st (c_buf st ++ bytes) in
-          let '(st2, t2, sent) := drain fx (S (length (c_buf st1))) src st1 t [] in
-          let (st3, sent3) := fire_permit st2 sent in
-          (st3, t2, sent3)
+          let buf := c_buf st ++ bytes in
+          match Stream.drain (codec fx) (S (length buf)) buf with
+          | None => let (st1, t1) := finish_session src st t in (st1, t1, [])   (* decoder panic: not reachable (C03) *)
+          | Some (evs, ds) =>
+              let '(st2, t2, sent, ended) := apply_evs fx src evs st t [] in
+              if ended then
+                let (st3, t3) := finish_session src st2 t2 in (st3, t3, sent)
+              else
+                let st3 := with_buf st2 (match ds with Stream.Pending rest => rest | Stream.Stopped => [] end) in
+                let (st4, sent4) := fire_permit st3 sent in
+                (st4, t2, sent4)
+          end
         else (st, t, [])
     | ESoftReset _ =>
         let (st1, sent) := fire_permit (with_permit st true) [] in (st1, t, sent)
